@@ -53,6 +53,7 @@ class Knobs:
         self.p_gvac = 0.2
         self.aligned_only = True      # calendars / starts / gaps multiples of the resolution
         self.forward_only = False
+        self.envelope = "mixed"      # asap | alap | mixed (see envelope_of)
         self.dur_weeks = [1, 2, 2, 3, 4]
         self.starts = [MON, MON, MON] + STARTS
         self.big_effort = 0.1
@@ -263,17 +264,35 @@ def gen_project(rng, k=None):
             else:
                 t.setdefault("deps", []).append(d)
     # pins, modes, limits
+    own, alle = A.all_edges(p)
+    has_succ = set()
+    for fid2, edges in alle.items():
+        for (q, _g, _o) in edges:
+            has_succ.add(q)
+            has_succ.update(x for x in order if x.startswith(q + "."))
+    env = k.envelope
+    if env == "alap":
+        p["sched"] = "alap"
+    elif env == "asap":
+        p.pop("sched", None)
     for fid in order:
         t = nodes[fid]
         leaf = A.is_leaf(t)
         if pick(rng, k.p_pin):
             hh = rng.choice([0, 9, 10, 13]) * H + (0 if k.aligned_only else rng.choice([0, 20 * 60]))
             dt = day(rng.randrange(min(ndays, 10))) + hh
-            if p.get("sched") == "alap" or t.get("mode") == "alap" or (pick(rng, 0.3) and not k.forward_only):
-                t["end"] = dt + rng.choice([0, 8 * H])
-            else:
+            if env == "asap":
                 t["start"] = dt
-        if leaf and not k.forward_only and pick(rng, k.p_taskmode):
+            elif env == "alap":
+                # deadlines only on tasks without successors and on containers
+                if not leaf or (fid not in has_succ):
+                    t["end"] = dt + rng.choice([8 * H, 17 * H, 24 * H])
+            else:
+                if p.get("sched") == "alap" or (pick(rng, 0.3) and not k.forward_only):
+                    t["end"] = dt + rng.choice([0, 8 * H])
+                else:
+                    t["start"] = dt
+        if env == "mixed" and leaf and not k.forward_only and pick(rng, k.p_taskmode):
             t["mode"] = rng.choice(["asap", "alap"])
             if t["mode"] == "alap" and "end" not in t and pick(rng, 0.7):
                 t["end"] = day(rng.randrange(2, max(3, min(ndays, 12)))) + 17 * H
@@ -281,6 +300,12 @@ def gen_project(rng, k=None):
             t["limits"] = gen_limits(rng, G)
             if len(ids) >= 2 and pick(rng, 0.3):
                 t["limits"]["resources"] = [rng.choice(ids)]
+    if env == "alap":
+        for fid in order:
+            for d in nodes[fid].get("deps") or []:
+                d["onstart"] = False
+            for d in nodes[fid].get("prec") or []:
+                d["onstart"] = False
     if pick(rng, k.p_scen):
         p["scenarios"] = [{"id": "plan", "children": [{"id": "s2", "children": [{"id": "s3"}] if pick(rng, 0.3) else []}]}]
         for fid in order:
@@ -388,3 +413,29 @@ def features(p):
     if p.get("vacations") or p.get("leaves"):
         f.add("global-holiday")
     return f
+
+
+def envelope_of(p):
+    """which claimed envelope of C04/C06/C08 a project lies in: 'asap', 'alap' or None"""
+    ft = A.flat_tasks(p)
+    if any(t.get("mode") for _, t, _, _ in ft):
+        return None
+    own, alle = A.all_edges(p)
+    if p.get("sched") == "alap":
+        has_succ = set()
+        for fid, edges in alle.items():
+            for (q, _g, onstart) in edges:
+                if onstart:
+                    return None
+                has_succ.add(q)
+                has_succ.update(x for x, *_ in ft if x.startswith(q + "."))
+        for fid, t, par, _ in ft:
+            if t.get("start") is not None:
+                return None
+            if t.get("end") is not None and A.is_leaf(t) and fid in has_succ:
+                return None
+        return "alap"
+    for fid, t, par, _ in ft:
+        if t.get("end") is not None:
+            return None
+    return "asap"
